@@ -1,0 +1,23 @@
+//go:build verif
+
+package index
+
+// Accessors for the verification harness (build tag verif only).
+
+// VerifCap returns the actual number of shards.
+func (s *ShardedIndex) VerifCap() int { return s.cap }
+
+// VerifShard returns the shard a key is placed in (the same computation locateShard performs:
+// it is located by comparing the returned shard with every shard of the index).
+func (s *ShardedIndex) VerifShard(key []byte) int {
+	shard, _ := s.locateShard(key)
+	for i := range s.index {
+		if s.index[i] == shard {
+			return i
+		}
+	}
+	return -1
+}
+
+// VerifNextPowerOfTwo exposes nextPowerOfTwo.
+func VerifNextPowerOfTwo(n int) int { return nextPowerOfTwo(n) }
